@@ -379,6 +379,14 @@ Record step := mkStep {
   s_obs : obs
 }.
 
+(* AuthzLimiterDecorator driven in isolation (NewAuthzLimiterDecorator with an
+   arbitrary disabled list, a pass-through next handler): accepted or not *)
+Record unit_case := mkUnit {
+  u_dis : list url;
+  u_msgs : list msg;
+  u_ok : bool
+}.
+
 Record history := mkHist {
   h_cfg : config;
   (* tables read from /repo/app/ante by the enumerator on this run *)
@@ -387,7 +395,8 @@ Record history := mkHist {
   h_src_router : list string;
   h_src_disabled : list url;
   h_src_vesting : list url;
-  h_steps : list step
+  h_steps : list step;
+  h_units : list unit_case
 }.
 
 Definition tables_ok (h : history) : bool :=
@@ -408,8 +417,23 @@ Fixpoint first_mismatch (cfg : config) (ss : list step) (i : nat) : option nat :
       else Some i
   end.
 
+Fixpoint first_unit_mismatch (us : list unit_case) (i : nat) : option nat :=
+  match us with
+  | [] => None
+  | u :: r =>
+      if Bool.eqb (check_disabled (u_dis u) true (u_msgs u)) (u_ok u) && forallb msg_wf_b (u_msgs u)
+      then first_unit_mismatch r (S i)
+      else Some i
+  end.
+
+(* steps first, then the unit cases (numbered after the steps) *)
 Definition check_history (h : history) : option nat :=
-  if tables_ok h then first_mismatch (h_cfg h) (h_steps h) 0 else Some 0%nat.
+  if tables_ok h then
+    match first_mismatch (h_cfg h) (h_steps h) 0 with
+    | Some k => Some k
+    | None => first_unit_mismatch (h_units h) (length (h_steps h))
+    end
+  else Some 0%nat.
 
 Fixpoint mismatches_from (i : nat) (hs : list history) : list (nat * nat) :=
   match hs with
